@@ -8,7 +8,8 @@ PY = '/venv/bin/python'
 
 A_TEXT = ('explicit-state breadth-first search over the real Task/WBS objects of small closed universes '
           '(2-4 tasks, 0-2 WBS, falsy / look-alike / repeated ids; 5-task and look-alike universes from directly built start states), every public '
-          'mutator with every argument combination applied in every reachable state, facades held across one or two operations; each edge is '
+          'mutator (and the Task constructor) with every argument combination applied in every reachable state, facades held across one or two '
+          'operations, every operation once more after all getters were read where reading changes hidden state; each edge is '
           'executed on the implementation and on a reference semantics in lock-step')
 A_NOTE = ('trusted: the harness\'s generic __dict__ snapshot/restore (self-checked on every expansion), the reference semantics '
           'of DESIGN 4.4, small-scope bounds (<=4 tasks, <=2 WBS, list arguments of <=2 elements)')
@@ -23,8 +24,10 @@ CHECKS = {
 
 B_TEXT = ('direct stateless exploration of the implementation: every input of the finite scenario layers (all hierarchy shapes '
           'with <=4 tasks x all link placements x attribute/calendar/start menus) is scheduled under a virtual clock, and the '
-          'environment (clock reads, lazy calendar answers) is explored as a deviation-bounded choice tree; call histories (calendar edited / '
-          'another plan scheduled first with the same scheduler or Resource objects) are enumerated; oracle: ')
+          'environment (clock reads, lazy calendar answers) is explored as a deviation-bounded choice tree; a cross layer varies structure, '
+          'attributes, resources (given as list / generator / tuple), calendars, clock position, outside tasks and constructor defaults together on 1-3 tasks; '
+          'call histories (calendar edited / another plan scheduled first with the same scheduler or Resource objects / the same ids regrouped or newly linked) '
+          'are enumerated; oracle: ')
 B_NOTE = ('trusted: the harness-side clock seam (canary-checked each run) and calendar proxies, the oracle clauses of DESIGN '
           'section 7, dyadic value alphabet compared exactly (decimal layer with 1e-9 / 1 s tolerance)')
 B_TECH = 'bounded-exhaustive stateless exploration of the scheduler: input layers x deviation-bounded environment choice tree'
